@@ -127,6 +127,11 @@ class RandomStub:
         n = a if isinstance(a, int) else len(a)
         self.captured.append(("choice", dict(n=n, size=size, replace=replace, p=p)))
         pick = (lambda i: i) if isinstance(a, int) else (lambda i: a[i])
+        # numpy's documented failures are part of the contract
+        if n == 0 and (size is None or int(_np.prod(size)) > 0):
+            raise ValueError("'a' cannot be empty unless no samples are taken")
+        if size is not None and not replace and int(_np.prod(size)) > n:
+            raise ValueError("Cannot take a larger sample than population when 'replace=False'")
         if size is None:
             return pick(self.sx.choice(self._name(), n))
         m = size if isinstance(size, int) else int(_np.prod(size))
